@@ -212,6 +212,7 @@ func (store *BaseStore[E]) Create(ctx MutateContext, entity E) error {
 		Store:         store.impl,
 		Bucket:        bucket,
 		IsCreate:      true,
+		parentExisted: parentExisted,
 	}
 	store.entityStrategy.PersistEntity(entity, persistCtx)
 	if bucket.HasError() {
